@@ -277,6 +277,8 @@ pub fn clock_reading(rng: &mut Rng) -> Option<u64> {
 /// What the generator knows about each pool image.
 pub struct PoolInfo {
     pub len: usize,
+    /// Judged strictly (today's loader, and every acceptable one, loads it).
+    pub strict: bool,
     pub by_class: Vec<(OffClass, Vec<usize>)>,
 }
 
@@ -293,6 +295,7 @@ impl PoolInfo {
         by_class.sort_by_key(|(c, _)| *c);
         PoolInfo {
             len: img.len(),
+            strict: img.strict,
             by_class,
         }
     }
@@ -313,8 +316,8 @@ pub enum Stratum {
     /// One long history (60-150 operations, up to 100 loads over 4-6 images): whatever
     /// accumulates per process (a cache with a capacity, a counter) within reach of one run.
     LongHistory,
-    /// One very long, nearly fault-free history (700-1000 operations, more than 256 loads, more
-    /// than 65 536 lookups and conversions): whatever counts calls in something narrow, fills a
+    /// One very long, nearly fault-free history (1700-2200 operations, some 800 loads of files
+    /// every loader accepts, more than 131 072 lookups and conversions): whatever counts calls in something narrow, fills a
     /// table with a capacity, or changes behaviour on the N-th call — within reach of ONE run,
     /// so that it replays from its scenario in a fresh process.
     Marathon,
@@ -503,18 +506,30 @@ pub fn generate(seed: u64, run_index: u64, infos: &[PoolInfo]) -> Scenario {
     let marathon = stratum == Stratum::Marathon;
     let long = stratum == Stratum::LongHistory || marathon;
     let n_ops = if marathon {
-        rng.urange(700, 1000)
+        rng.urange(1700, 2200)
     } else if long {
         rng.urange(60, 150)
     } else {
         rng.urange(3, 12)
     };
-    let max_loads = if marathon { 400 } else if long { 100 } else { 6 };
+    let max_loads = if marathon { 900 } else if long { 100 } else { 6 };
+    if marathon {
+        // files every loader loads: what counts here is how MANY loads succeed in a row (a
+        // counter that wraps every 256 loads should meet a successful load more than once)
+        for slot in imgs.iter_mut() {
+            for _ in 0..infos.len() {
+                if infos[*slot].strict && infos[*slot].len < 20_000 {
+                    break;
+                }
+                *slot = (*slot + 1) % infos.len();
+            }
+        }
+    }
     if long {
         // more images, small ones (a long history of 1-byte reads on a 140 KB file tells nothing)
         for _ in 0..3 {
             let cand = rng.urange(0, infos.len() - 1);
-            if infos[cand].len < 20_000 {
+            if infos[cand].len < 20_000 && (!marathon || infos[cand].strict) {
                 imgs.push(cand);
             }
         }
